@@ -113,6 +113,9 @@ class World:
             raise Violation("cannot-read-back", "%s: load_lmpdat of the written file raised %s: %r" % (what, type(e).__name__, e))
         got = M.resolve(b, what + " -> save -> load")
         want = reload_model(o.model)
+        if o.model["cell"] is not None and (got["cell"] is None or
+                                            np.abs(np.array(got["cell"], float) - np.array(o.model["cell"], float)).max() > 5.1e-7):
+            raise Violation("reload-cell", "%s -> save -> load: cell %r, written from %r" % (what, got["cell"], o.model["cell"]))
         M.compare_atoms(got["atoms"], want["atoms"], what + " -> save -> load", pos_tol=5.1e-7, ordered=True,
                         fields=("label", "mass", "pair", "group"))
         M.compare_terms(got["terms"], want["terms"], what + " -> save -> load", untyped_by_class=True)
